@@ -200,6 +200,9 @@ func r12_5(c *Ctx, rule string) {
 		if d > 12 {
 			return aff{}, false
 		}
+		// (a named intermediate kept in a cell because a literal captures it,
+		// or what a helper no rule names hands back)
+		v = eng.Canon(v)
 		if k, ok := eng.ConstInt(v); ok {
 			return aff{0, 0, k}, true
 		}
@@ -236,11 +239,16 @@ func r12_5(c *Ctx, rule string) {
 		case *ssa.ChangeType:
 			return eval(x.X, d+1)
 		}
+		// what a helper no rule names hands back (`found := v.findParentDir(dir)`)
+		if rs := eng.ResolveAll(v); len(rs) == 1 && rs[0] != v {
+			return eval(rs[0], d+1)
+		}
 		return aff{}, false
 	}
 	stores := fieldStoresIn(fn, field)
 	n := 0
-	eng.InstrsShallow(fn, func(in ssa.Instruction) {
+	defer c.scope(fn)()
+	eng.Instrs(fn, func(in ssa.Instruction) {
 		sl, ok := in.(*ssa.Slice)
 		if !ok || !isStack(sl.X) || sl.High == nil {
 			return
